@@ -20,6 +20,7 @@ import (
 type c19 struct {
 	res     *report.Result
 	verbose bool
+	printed map[string]bool
 }
 
 // snapshot is everything observable through root: the walker's dump (every exported and
@@ -54,7 +55,8 @@ func (c *c19) check(typ, shape string, rp replay, orig, clone interface{}, encO,
 	res.Count("clone_checks_"+typ, 1)
 	viol := func(clause, site, detail string) {
 		res.Violate("C19", fmt.Sprintf("C19:%s:%s/%s", clause, typ, site), fmt.Sprintf("[%s %s] %s", typ, shape, detail), rp)
-		if c.verbose {
+		if sig := clause + typ + site; c.verbose && !c.printed[sig] {
+			c.printed[sig] = true
 			fmt.Printf("  VERDICT C19:%s:%s/%s: %s\n", clause, typ, site, trunc(detail, 400))
 		}
 	}
@@ -450,7 +452,7 @@ func runC19(t *testing.T, res *report.Result) {
 }
 
 func replayC19(t *testing.T, res *report.Result, rp replay) {
-	c := &c19{res: res, verbose: true}
+	c := &c19{res: res, verbose: true, printed: map[string]bool{}}
 	if rp.Type == "Params" {
 		for _, b := range pBases(true) {
 			if b.name() == rp.Base {
